@@ -26,8 +26,8 @@ type profile struct {
 	render  bool // explore rendering choices
 }
 
-var allStyles = []srt.Style{{}, {B: true}, {I: true}, {U: true}, {Color: "#ff0000"}, {B: true, I: true}, {B: true, I: true, U: true, Color: "red"}}
-var allTexts = []string{"x", "a b", " lead", "trail ", "7", "&", "<", "a<b", "&amp;", "a\u00a0b", "\u00e9", "e\u0301", "\U0001F600", "a\tb", "a>b", "\"q\"", "1 > 0 -> ok", "\u00a0edge\u00a0", "\u00a0"}
+var allStyles = []srt.Style{{}, {B: true}, {I: true}, {U: true}, {Color: "#ff0000"}, {B: true, I: true}, {B: true, I: true, U: true, Color: "red"}, {U: true, Color: "blue"}}
+var allTexts = []string{"x", "a b", " lead", "trail ", "7", "&", "<", "a<b", "&amp;", "a\u00a0b", "\u00e9", "e\u0301", "\U0001F600", "a\tb", "a>b", "\"q\"", "1 > 0 -> ok", "\u00a0edge\u00a0", "\u00a0", "&lt;", "&nbsp;", "<3", "a -> b"}
 var allStarts = []int64{1000, 0, 1, 999, 1500, 59999, 60000, 3599999, 3600000, 35999999, 36000000, 86399999, 359998000}
 
 const maxMs = 359999999
@@ -104,7 +104,7 @@ func gen(c *explore.C, p profile, coreRender bool) Case {
 		r.Lazy = c.Bool("lazy")
 		r.LeaveOpen = c.Bool("leaveopen")
 		r.UpperTags = c.Bool("upper")
-		r.ColorQuote = c.Choose("quote", 3)
+		r.ColorQuote = c.Choose("quote", 4)
 		r.LineSpaces = c.Choose("linespaces", 4)
 		r.NBSPEntity = c.Bool("nbspentity")
 	} else if coreRender {
@@ -381,9 +381,21 @@ func run(c *core.Ctx) {
 		r.Lazy = x.Bool("lazy")
 		r.LeaveOpen = x.Bool("leaveopen")
 		r.UpperTags = x.Bool("upper")
-		r.ColorQuote = x.Choose("quote", 3)
+		r.ColorQuote = x.Choose("quote", 4)
 		cs = Case{Doc: d, Render: r}
 	}, visit("markup"))
+	// (1e) timing lines: instants x fraction digits x separator x hour digits x arrow spacing x coordinates
+	explore.Explore(-1, func(x *explore.C) {
+		start := explore.Pick(x, "start", int64(1000), 1500, 1250, 36000000, 3600500, 59999, 359998000)
+		cue := srt.Cue{Start: start, End: start + explore.Pick(x, "dur", int64(1000), 250, 1), Lines: []srt.Line{{{Text: "x"}}}}
+		r := srt.DefaultRender(1)
+		r.FracDigits = explore.Pick(x, "frac", 3, 2, 1)
+		r.Sep = explore.Pick(x, "sep", ",", ".")
+		r.HourDigits = explore.Pick(x, "hours", 2, 1, 3)
+		r.Arrow = explore.Pick(x, "arrow", " --> ", "-->", "  -->  ", "\t-->\t", " -->", "--> ")
+		r.Coords = explore.Pick(x, "coords", "", " X1:1 X2:2 Y1:3 Y2:4", " X1:100,5 Y1:2.5", "\tX1:1")
+		cs = Case{Doc: srt.Doc{cue}, Render: r}
+	}, visit("times"))
 	// (2) deviation ball around the baseline document over all model and rendering choice points
 	explore.Explore(bound, func(x *explore.C) { cs = gen(x, full, false) }, visit("ball"))
 	if c.Tier == core.Thorough {
